@@ -442,10 +442,19 @@ func (p *player) step(s ScStep) {
 			ctl.setMode(s.Mode, s.At)
 		}
 	case "consumer":
-		p.rec.Put(M{"e": "Consumer", "run": s.Run, "t": p.ms()})
 		p.mu.Lock()
+		was := p.consumerOn
 		p.consumerOn = s.Run
 		p.mu.Unlock()
+		if was && !s.Run {
+			// make sure the consumer is not sitting in its receive any more when the stop is recorded
+			select {
+			case p.pauseReq <- struct{}{}:
+			case <-time.After(time.Second):
+			case <-p.evClosed:
+			}
+		}
+		p.rec.Put(M{"e": "Consumer", "run": s.Run, "t": p.ms()})
 		p.consCond.Broadcast()
 	case "write":
 		ops := p.writers[s.G]
